@@ -1,9 +1,81 @@
-(* Props/C01.v -- property theorems only *)
-From Coq Require Import ZArith List.
-From Falcon Require Import Isa.X86 Isa.X86Run Isa.C01Check.
+(* Props/C01.v -- property theorems only (proofs in Isa/X86Proofs.v).
+   Depth part of C01: the shared helper layer of the x86 lifter, mirrored in Isa/X86Lift.v, against the
+   ISA specification Isa/X86.v, for ALL values.  The per-encoding breadth part is the in-kernel differential
+   check of Isa/C01Check.v (processor + specification as oracles). *)
+From Coq Require Import ZArith List Bool NArith.
+From Falcon Require Import Base.Res IL.Const IL.ConstSpec IL.Expr IL.Func Exec.Sem Isa.X86 Isa.X86Lift Isa.X86Proofs.
 Import ListNotations.
 Local Open Scope Z_scope.
 
-Theorem patch_nil : forall l i, patch i l [] = l.
-Proof. induction l as [|x t IH]; intros i; cbn; [reflexivity|]. rewrite IH. reflexivity. Qed.
-Print Assumptions patch_nil.
+(* 1. X86Register::get / set (all sub-register kinds al/ah/ax/eax/rax, both register tables): reading and
+      writing a sub-register composes exactly as the architecture says (X86.reg_read / reg_write /
+      regh_read / regh_write), for every value of the full register and every value written. *)
+Theorem reg_get_set_correct : forall en n fbits s x,
+  shape_valid fbits s -> 0 <= x < 2 ^ fbits -> env_get en (n, None) = Some (mkc fbits x) ->
+  (exists e, reg_get (xreg_of n fbits s) = Ok e /\
+             den en e = Ok (mkc (shape_bits fbits s) (arch_read s fbits x))) /\
+  (forall v y, 0 <= y < 2 ^ shape_bits fbits s -> e_bits v = shape_bits fbits s ->
+               den en v = Ok (mkc (shape_bits fbits s) y) ->
+     exists e, reg_set (xreg_of n fbits s) v = Ok [OAssign (mks n fbits None) e] /\
+               den en e = Ok (mkc fbits (arch_write s fbits x y))).
+Proof. exact X86Proofs.reg_get_set_correct. Qed.
+Print Assumptions reg_get_set_correct.
+
+(* the defect this layer had before the fix (mask of the high-byte write not inverted), as a witness *)
+Theorem reg_set_prefix_refuted :
+  let en := [((0%N, None), mkc 64 1311768467463790320)] in
+  let v := EConst (mkc 8 85) in
+  exists e, reg_set_prefix (xreg_of 0%N 64 ShHigh8) v = Ok [OAssign (mks 0%N 64 None) e] /\
+            den en e = Ok (mkc 64 57088) /\
+            arch_write ShHigh8 64 1311768467463790320 85 = 1311768467463755248.
+Proof. exact X86Proofs.reg_set_prefix_refuted. Qed.
+Print Assumptions reg_set_prefix_refuted.
+
+(* 2. flag helpers: the formulas of set_of / set_cf / set_sf are the architectural OF / CF / SF for all
+      operand values at widths 8/16/32/64 ... *)
+Theorem of_add_correct : forall w a b, width_ok w -> 0 <= a < 2 ^ w -> 0 <= b < 2 ^ w ->
+  of_value w a b (U w (a + b)) false = X86.b2z (X86.sovf w (X86.Sg w a + X86.Sg w b)).
+Proof. exact X86Proofs.of_add_correct. Qed.
+Print Assumptions of_add_correct.
+Theorem of_sub_correct : forall w a b, width_ok w -> 0 <= a < 2 ^ w -> 0 <= b < 2 ^ w ->
+  of_value w a b (U w (a - b)) true = X86.b2z (X86.sovf w (X86.Sg w a - X86.Sg w b)).
+Proof. exact X86Proofs.of_sub_correct. Qed.
+Print Assumptions of_sub_correct.
+Theorem cf_sub_correct : forall w a b, width_ok w -> 0 <= a < 2 ^ w -> 0 <= b < 2 ^ w ->
+  (a <? U w (a - b)) = (a <? b).
+Proof. exact X86Proofs.cf_sub_correct. Qed.
+Print Assumptions cf_sub_correct.
+Theorem cf_add_correct : forall w a b, width_ok w -> 0 <= a < 2 ^ w -> 0 <= b < 2 ^ w ->
+  (U w (a + b) <? a) = (2 ^ w <=? a + b).
+Proof. exact X86Proofs.cf_add_correct. Qed.
+Print Assumptions cf_add_correct.
+Theorem sf_correct : forall w r, width_ok w -> 0 <= r < 2 ^ w ->
+  (r / 2 ^ (w - 1)) mod 2 = X86.b2z (X86.msb w r).
+Proof. exact X86Proofs.sf_correct. Qed.
+Print Assumptions sf_correct.
+
+(* ... and the IL the helpers emit denotes exactly those formulas (no sort error for equal-width operands) *)
+Theorem set_zf_den : forall en w r result, e_bits result = w -> den en result = Ok (mkc w r) ->
+  exists e, set_zf result = Ok (OAssign (flag_scalar X86Lift.n_ZF) e) /\ den en e = Ok (mkc 1 (X86.b2z (r =? 0))).
+Proof. exact X86Proofs.set_zf_den. Qed.
+Print Assumptions set_zf_den.
+Theorem set_sf_den : forall en w a b r lhs rhs result, width_ok w ->
+  0 <= a < 2 ^ w -> 0 <= b < 2 ^ w -> 0 <= r < 2 ^ w ->
+  e_bits lhs = w -> e_bits rhs = w -> e_bits result = w ->
+  den en lhs = Ok (mkc w a) -> den en rhs = Ok (mkc w b) -> den en result = Ok (mkc w r) ->
+  exists e, set_sf result = Ok (OAssign (flag_scalar X86Lift.n_SF) e) /\ den en e = Ok (mkc 1 (X86.b2z (X86.msb w r))).
+Proof. exact X86Proofs.set_sf_den. Qed.
+Print Assumptions set_sf_den.
+Theorem set_cf_den : forall en w a r lhs result, e_bits lhs = w -> e_bits result = w ->
+  den en lhs = Ok (mkc w a) -> den en result = Ok (mkc w r) ->
+  exists e, set_cf result lhs = Ok (OAssign (flag_scalar X86Lift.n_CF) e) /\ den en e = Ok (mkc 1 (X86.b2z (a <? r))).
+Proof. exact X86Proofs.set_cf_den. Qed.
+Print Assumptions set_cf_den.
+Theorem set_of_den : forall en w a b r lhs rhs result, width_ok w ->
+  0 <= a < 2 ^ w -> 0 <= b < 2 ^ w -> 0 <= r < 2 ^ w ->
+  e_bits lhs = w -> e_bits rhs = w -> e_bits result = w ->
+  den en lhs = Ok (mkc w a) -> den en rhs = Ok (mkc w b) -> den en result = Ok (mkc w r) ->
+  forall sub, exists e, set_of result lhs rhs sub = Ok (OAssign (flag_scalar X86Lift.n_OF) e) /\
+                        den en e = Ok (mkc 1 (of_value w a b r sub)).
+Proof. exact X86Proofs.set_of_den. Qed.
+Print Assumptions set_of_den.
